@@ -26,6 +26,13 @@ def C01(rep, prog, tier):
     wrappers.shortcut_guard(rep, ex)
     wrappers.shortcut_dominance(rep, ex)
     part.check_all(rep, ex, only=("inference.consistency_sat.consistency",))
+    _answers_reach_the_caller(rep, ex)
+
+
+def _answers_reach_the_caller(rep, ex):
+    """An operator's answer is observed through single_inference and the manager's report: both must hand every query
+    its own answer (ROWS.key, ROWS.columns)."""
+    wrappers.rows(rep, ex, which=("single", "manager"), rules=("ROWS.key", "ROWS.columns"))
 
 
 def _encoding_and_enumeration(rep, ex):
@@ -53,6 +60,7 @@ def C02(rep, prog, tier):
     wrappers.shortcut_guard(rep, ex)
     wrappers.shortcut_dominance(rep, ex)
     part.check_all(rep, ex, only=("inference.consistency_sat.consistency",))
+    _answers_reach_the_caller(rep, ex)
 
 
 def C03(rep, prog, tier):
@@ -73,6 +81,7 @@ def C03(rep, prog, tier):
     wrappers.shortcut_dominance(rep, ex)
     part.check_all(rep, ex)
     _encoding_and_enumeration(rep, ex)
+    _answers_reach_the_caller(rep, ex)
 
 
 def C04(rep, prog, tier):
@@ -95,6 +104,7 @@ def C04(rep, prog, tier):
     wrappers.shortcut_dominance(rep, ex)
     part.check_all(rep, ex)
     _encoding_and_enumeration(rep, ex)
+    _answers_reach_the_caller(rep, ex)
 
 
 def C07(rep, prog, tier):
@@ -319,7 +329,7 @@ def C14(rep, prog, tier):
         if cls:
             enum.z3mcs(rep, ex, cls)
     wrappers.timeout_flow(rep, ex)
-    wrappers.rows(rep, ex, which=("single", "worker"), rules=("TIMEOUT.row",))
+    wrappers.rows(rep, ex, which=("single", "worker", "multi"), rules=("TIMEOUT.row",))
     wrappers.refuse(rep, ex, rules=("TIMEOUT.row", "TIMEOUT.flow", "PREPROC.once"))
     wrappers.refuse_manager(rep, ex, rules=("TIMEOUT.row",))
     wrappers.preprocessing_timeout_rows(rep, ex)
@@ -368,6 +378,7 @@ def C05(rep, prog, tier):
     wrappers.shortcut_guard(rep, ex)
     wrappers.shortcut_dominance(rep, ex)
     _encoding_and_enumeration(rep, ex)
+    _answers_reach_the_caller(rep, ex)
 
 
 def C16(rep, prog, tier):
